@@ -32,6 +32,10 @@ class CFG:
             for i, e in enumerate(b['e']):
                 if isinstance(e, int):
                     self.pos_of.setdefault(e, (bid, i))
+        # break / continue / goto are terminators, not elements: they sit at the end of their block
+        for bid, b in self.blocks.items():
+            if b.get('termk') in ('BreakStmt', 'ContinueStmt', 'GotoStmt') and 'term' in b:
+                self.pos_of.setdefault(b['term'], (bid, len(b['e'])))
 
     # ---- basic
     def elems(self, bid):
